@@ -37,6 +37,15 @@ def run(ctx):
             norb = rng.choice([1, 2, 2, 3])
             wk = rng.choice(["single", "multi", "spinbroken", "numberbroken"])
             w = C01.make_wfn(ctx, wk, norb, rng)
+            if case % 3 == 1:
+                # nearly real coefficients: a real vector times per-determinant phases exp(-i 1e-6 E_k) (a very short
+                # diagonal time step) - the imaginary parts are tiny but they are part of the state
+                for k_ in w.sectors():
+                    c_ = numpy.real(w.get_coeff(k_)) + 1.0
+                    ph = numpy.exp(-1j * 1e-6 * (numpy.arange(c_.size).reshape(c_.shape) + 1))
+                    w.set_wfn(strategy="from_data", raw_data={k_: (c_ * ph).astype(numpy.complex128)}) if len(list(w.sectors())) == 1 else \
+                        w.sector(k_).set_wfn(strategy="from_data", raw_data=(c_ * ph).astype(numpy.complex128))
+                ctx.count("nearly-real-coefficients")
             desc = {"wfn": wk, "norb": norb, "sectors": sorted(w.sectors()), "case": case}
             d1 = os.path.join(root, f"a{case}")
             os.makedirs(d1)
